@@ -33,6 +33,7 @@ type RunSpec struct {
 	Solver      string `json:"solver"`
 	AbstractTime bool  `json:"abstract_time"`
 	NoPreempt   bool   `json:"no_preempt"`
+	DebugPrefix []int  `json:"debug_prefix"`
 }
 
 type Spec struct {
@@ -182,6 +183,16 @@ func main() {
 		}
 		if c.SolverTimeoutMs <= 0 {
 			c.SolverTimeoutMs = 60000
+		}
+		if len(r.DebugPrefix) > 0 {
+			c.Debug = true
+			s, _ := NewSolver(c.SolverBin, c.SolverTimeoutMs, c.Seed)
+			pr, _ := runPath(prog, c, h, r.DebugPrefix, Model{}, s)
+			fmt.Fprintf(os.Stderr, "[debug] end=%s msg=%s violations=%d\n", pr.End, pr.EndMsg, len(pr.Violations))
+			for _, v := range pr.Violations {
+				fmt.Fprintf(os.Stderr, "[debug] violation %s %s %s\n", v.Kind, v.Label, v.Msg)
+			}
+			os.Exit(0)
 		}
 		e := &Explorer{prog: prog, cfg: c, harness: h, sem: sem}
 		wg.Add(1)
